@@ -62,7 +62,12 @@ def rule_accessor(prog: Program) -> List[Instance]:
                 key = rv.slice.value
                 out.append(Instance("R-ACCESSOR", cid, OK if key == pname else BAD, f"reads key \"{key}\"", m.where()))
                 continue
-            out.append(Instance("R-ACCESSOR", cid, UNDET, f"unrecognised accessor body `{short(rv)}`", m.where()))
+            keyc = next((a.value for x in ast.walk(rv) if isinstance(x, ast.Call) for a in x.args[:1] if isinstance(a, ast.Constant) and isinstance(a.value, str)), None)
+            if keyc is not None:
+                out.append(Instance("R-ACCESSOR", cid, OK if keyc == pname else BAD,
+                                    f"looks up its own key \"{keyc}\"" if keyc == pname else f"property `{pname}` looks up key \"{keyc}\"", m.where()))
+            else:
+                out.append(Instance("R-ACCESSOR", cid, INFO, f"accessor body `{short(rv)}` not modelled", m.where(), nontrivial=False))
         for lo, hi in (("min_write_sz", "max_write_sz"), ("min_part", "max_part")):
             a, b = vals.get(lo), vals.get(hi)
             cid = f"{ci.qual}#default-order:{lo}<{hi}"
@@ -562,7 +567,20 @@ def _mpu_pairing(prog: Program, ci: ClassInfo) -> List[Instance]:
                     sz_ok = data_p in org.deps(n.args[0].elts[0])
             if isinstance(n, ast.AugAssign) and _self_attr(n.target, me) == "data" and isinstance(n.op, ast.Add) and isinstance(n.value, ast.Name) and n.value.id == data_p:
                 dat = True
-        ok = obs and dat and sz_ok
+        # both effects happen on every path through append (no early return in between or before)
+        def _mark(node, facts, part):
+            if part == "stmt":
+                for x in ast.walk(node):
+                    if isinstance(x, ast.Call) and isinstance(x.func, ast.Attribute) and x.func.attr == "append" and _self_attr(x.func.value, me) == "observed":
+                        facts = facts | {"OBS"}
+                if isinstance(node, ast.AugAssign) and _self_attr(node.target, me) == "data":
+                    facts = facts | {"DATA"}
+            return facts
+        fl = Flow(ap.body, transfer=_mark).run()
+        always = all({"OBS", "DATA"} <= ex.facts for ex in fl.normal_exits())
+        ok = obs and dat and sz_ok and always
+        if obs and dat and sz_ok and not always:
+            out.append(Instance("R-MPU", f"{ap.qual}#PAIRING:observe-always", BAD, "append can return without logging the chunk in observed / storing its bytes: header and footer callbacks see an incomplete (size, id) list", ap.where()))
         out.append(Instance("R-MPU", f"{ap.qual}#PAIRING:observe", OK if ok else BAD,
                             "append logs (len(data), id) and extends data by the same bytes" if ok else
                             f"append must both log (len({data_p}), chunk_id) in observed and do self.data += {data_p} (observed={obs}, data={dat}, size-from-data={sz_ok})", ap.where()))
@@ -791,6 +809,11 @@ def _mpu_stride(prog: Program, ci: ClassInfo) -> List[Instance]:
                 ok = stride is not None and isinstance(a1, ast.Name) and a1.id in stride
                 out.append(Instance("R-MPU", f"{gb.qual}#STRIDE", OK if ok else BAD,
                                     f"chunk i starts at partId + i*{short(a1)} and owns {short(a1)} ids" if ok else f"part id stride `{short(a0)}` does not match the credits `{short(a1)}` handed to each chunk: ids of neighbouring chunks overlap or leave gaps", gb.where(n)))
+                for kwn in ("lhs_keep",):
+                    kv = next((k.value for k in n.keywords if k.arg == kwn), None)
+                    okk = isinstance(kv, ast.Name) and kv.id == kwn
+                    out.append(Instance("R-MPU", f"{gb.qual}#STRIDE:{kwn}", OK if okk else BAD,
+                                        f"every generated chunk carries {kwn} unchanged" if okk else f"`{kwn}={short(kv)}`: not every chunk reserves bytes for its left neighbour, a chunk that starts writing first leaves an undersized left remainder", gb.where(n)))
         if not hit:
             out.append(Instance("R-MPU", f"{gb.qual}#STRIDE", UNDET, "MPUChunk construction not found in gen_bunch", gb.where()))
     mwf = prog.maybe_func("cog._mpu:mpu_write")
